@@ -151,16 +151,37 @@ func worker(jobsPath string, from int, dir, tag, logPath, stdoutPath string) {
 		defer pprof.StopCPUProfile()
 	}
 	var env *zygo.Zlisp
+	var roots []*zygo.Zlisp // what to close: the interpreter itself, or the root interpreters of a family
+	closeEnv := func() {
+		for _, r := range roots {
+			r.Close()
+		}
+		roots, env = nil, nil
+	}
 	envKey := ""
 	for i := from; i < len(jobs); i++ {
 		j := jobs[i]
-		key := j.Cfg + "\x00" + j.Entry
+		key := j.Key()
 		if env == nil || key != envKey {
-			if env != nil {
-				env.Close()
+			closeEnv()
+			if j.Cfg == "fam" {
+				var members []*zygo.Zlisp
+				members, roots = buildFamily(j.Hist)
+				t := familyTarget(j.Hist)
+				if t < 0 || t >= len(members) {
+					panic("family history without its target: " + j.Hist)
+				}
+				env = members[t]
+			} else {
+				env = newEnv(j.Cfg)
+				roots = []*zygo.Zlisp{env}
 			}
-			env = newEnv(j.Cfg)
 			envKey = key
+		}
+		if j.Kind == "names" {
+			fmt.Fprintf(logf, "B %d\n", j.ID)
+			fmt.Fprintf(logf, "E %d %s %s %s\n", j.ID, familyNames(env), "names", "[]")
+			continue
 		}
 		current <- j.ID
 		fmt.Fprintf(logf, "B %d\n", j.ID)
@@ -199,15 +220,12 @@ func worker(jobsPath string, from int, dir, tag, logPath, stdoutPath string) {
 		if len(o.effects) > 0 {
 			can.Install()
 			can.Snapshot()
-			env.Close()
-			env = nil
+			closeEnv()
 		}
 		det, _ := json.Marshal(o.detail)
 		fmt.Fprintf(logf, "E %d %s %s %s\n", j.ID, o.String(), class, det)
 	}
-	if env != nil {
-		env.Close()
-	}
+	closeEnv()
 	logf.Close()
 	pprof.StopCPUProfile()
 	os.Exit(0)
@@ -326,10 +344,10 @@ func runJobs(root string, jobs []Job, tag string, stats map[string]int) map[int]
 		from = idx[began] + 1
 		if class == "hang" {
 			// an entry that hangs twice is not called again in this configuration
-			k := jobs[idx[began]].Cfg + "\x00" + jobs[idx[began]].Entry
+			k := jobs[idx[began]].Key()
 			hangs[k]++
 			if hangs[k] >= 2 {
-				for from < len(jobs) && jobs[from].Cfg+"\x00"+jobs[from].Entry == k {
+				for from < len(jobs) && jobs[from].Key() == k {
 					res[jobs[from].ID] = JobResult{Effects: "-", Class: "skipped-after-hang"}
 					stats["skipped_after_hang"]++
 					from++
@@ -604,6 +622,25 @@ func main() {
 		}
 		bound[cfg] = m
 	}
+	{
+		// what ImportDemoData adds to a sandbox + StandardSetup (cmd/zygo -sandbox -demo)
+		e := zygo.NewZlispSandbox()
+		e.StandardSetup()
+		before := map[string]bool{}
+		for _, b := range e.VerifBindings() {
+			before[b.Table+"\x00"+b.Name] = true
+		}
+		e.ImportDemoData()
+		seen := map[string]bool{}
+		for _, b := range e.VerifBindings() {
+			if !before[b.Table+"\x00"+b.Name] && !seen[b.Name] && b.Kind != "type" {
+				seen[b.Name] = true
+				demoNames = append(demoNames, b.Name)
+			}
+		}
+		sort.Strings(demoNames)
+		e.Close()
+	}
 	special := map[string]bool{}
 	for _, sf := range tabs.SpecialForms {
 		special[sf[0]] = true
@@ -617,6 +654,9 @@ func main() {
 		for n := range m {
 			candSet[n] = true
 		}
+	}
+	for _, n := range demoNames {
+		candSet[n] = true
 	}
 	var cands []string
 	for n := range candSet {
@@ -717,11 +757,12 @@ func main() {
 			Abs    string   `json:"abs"`
 			Argv   []string `json:"argv"`
 			ScriptFile string `json:"script_file"`
+			Hist   string   `json:"hist"`
 		}
 		if err := json.Unmarshal(b, &rj); err != nil {
 			panic(err)
 		}
-		jobs = append(jobs, Job{Cfg: rj.Cfg, Entry: rj.Entry, Kind: "replay", Form: "replay", Pre: rj.Pre, Script: rj.Script, Abs: rj.Abs, Argv: rj.Argv, ScriptFile: rj.ScriptFile})
+		jobs = append(jobs, Job{Cfg: rj.Cfg, Entry: rj.Entry, Kind: "replay", Form: "replay", Pre: rj.Pre, Script: rj.Script, Abs: rj.Abs, Argv: rj.Argv, ScriptFile: rj.ScriptFile, Hist: rj.Hist})
 	} else {
 		for _, cfg := range []string{"bare", "std", "full"} {
 			es, live := entriesOf(cfg)
@@ -755,6 +796,16 @@ func main() {
 				}
 				jobs = append(jobs, grammarJobs(cfg, w, nGrammar, rng.Fork())...)
 			}
+		}
+		{
+			// the interpreter family: names the unrestricted tables bind to effectful functions and a sandbox does not bind
+			var nonFlow []string
+			for _, sf := range specials {
+				if !unsafeName(sf) {
+					nonFlow = append(nonFlow, sf)
+				}
+			}
+			jobs = append(jobs, familyJobs(a.Tier, rng.Fork(), nonFlow, foreignNames("std"))...)
 		}
 		if zygoBin != "" {
 			es, _ := entriesOf("std")
@@ -792,19 +843,25 @@ func main() {
 		res  map[int]JobResult
 		st   map[string]int
 	}
-	parts := make([]*part, nw)
+	parts := make([]*part, nw+1)
 	for i := range parts {
 		parts[i] = &part{st: map[string]int{}}
 	}
-	// keep the jobs of one (cfg, entry) together
+	// keep the jobs of one (cfg, entry) together.  Family histories that BEGIN with an unrestricted interpreter get a
+	// worker process of their own (the last part): there the first constructor / first StandardSetup of the PROCESS is the
+	// unrestricted one (process-global state: registries, once-initialised tables), in the other workers it is a sandbox's.
 	pi := 0
 	for i, j := range inproc {
-		if i > 0 && (inproc[i-1].Cfg != j.Cfg || inproc[i-1].Entry != j.Entry) {
+		if j.Cfg == "fam" && strings.HasPrefix(j.Hist, "F") {
+			parts[nw].jobs = append(parts[nw].jobs, j)
+			continue
+		}
+		if i > 0 && inproc[i-1].Key() != j.Key() {
 			pi = (pi + 1) % nw
 		}
 		parts[pi].jobs = append(parts[pi].jobs, j)
 	}
-	doneCh := make(chan int, nw)
+	doneCh := make(chan int, nw+1)
 	for i := range parts {
 		go func(i int) {
 			defer func() {
@@ -882,7 +939,7 @@ func main() {
 		if r.Class == "hang" || r.Class == "crash" {
 			anomalies = append(anomalies, map[string]interface{}{"cfg": j.Cfg, "entry": j.Entry, "pre": j.Pre, "script": j.Script, "class": r.Class, "detail": r.Detail})
 		}
-		if r.Effects != "-" {
+		if r.Effects != "-" && j.Kind != "names" {
 			if effectSeen[j.Cfg] == nil {
 				effectSeen[j.Cfg] = map[string]int{}
 			}
@@ -891,13 +948,18 @@ func main() {
 			}
 			if len(findings) < 4000 {
 				findings = append(findings, map[string]interface{}{"id": j.ID, "cfg": j.Cfg, "entry": j.Entry, "kind": j.Kind, "form": j.Form,
-					"pre": j.Pre, "script": j.Script, "abs": j.Abs, "argv": j.Argv, "script_file": j.ScriptFile, "effects": r.Effects, "class": r.Class, "detail": r.Detail})
+					"pre": j.Pre, "script": j.Script, "abs": j.Abs, "argv": j.Argv, "script_file": j.ScriptFile, "hist": j.Hist, "effects": r.Effects, "class": r.Class, "detail": r.Detail})
 			}
 		}
 	}
 	// the command lines themselves: observed kind of interpreter vs the Coq model of the command line
 	for _, d := range cmdAll {
 		out.Case("cmdline "+d.Toks+" :: zygo "+d.Argv, d.Observed, true, "cfg:cmdline", "cmdline-observed:"+d.Observed)
+	}
+	for _, d := range cmdAll {
+		if d.Plan != "" {
+			out.Case("plan "+d.Toks+" :: zygo "+d.Argv, d.Plan, true, "cfg:plan", "plan-observed:"+d.Plan)
+		}
 	}
 	for _, d := range sessAll {
 		fk := "K"
